@@ -769,6 +769,33 @@ func (m *endpointManager) resolveWorkloadEndpoints() {
 		delete(m.activeWlEndpoints, id)
 	}
 
+	// promoteShadowed queues the best shadowed endpoint (if any) that wants the given interface
+	// name, which has just been vacated by the endpoint that was active on it.
+	promoteShadowed := func(logCxt *log.Entry, ifaceName string) {
+		bestShadowedId := types.WorkloadEndpointID{}
+		found := false
+		for sId, sWorkload := range m.shadowedWlEndpoints {
+			if sWorkload.Name != ifaceName {
+				continue
+			}
+			if _, pending := m.pendingWlEpUpdates[sId]; pending {
+				// A newer update (or a removal) for this endpoint is still queued; it must
+				// not be overwritten with the older shadowed copy.  It will be resolved on
+				// its own when the loop below reaches it.
+				continue
+			}
+			if !found || wlIdsAscending(&sId, &bestShadowedId) {
+				bestShadowedId = sId
+				found = true
+			}
+		}
+		if found {
+			logCxt.WithField("shadowedId", bestShadowedId).Info("Interface name vacated, activating shadowed endpoint")
+			m.pendingWlEpUpdates[bestShadowedId] = m.shadowedWlEndpoints[bestShadowedId]
+			delete(m.shadowedWlEndpoints, bestShadowedId)
+		}
+	}
+
 	// Repeat the following loop until the pending update map is empty.  Note that it's possible
 	// for an endpoint deletion to add a further update into the map (for a previously shadowed
 	// endpoint), so we cannot assume that a single iteration will always be enough.
@@ -792,6 +819,13 @@ func (m *endpointManager) resolveWorkloadEndpoints() {
 					}).Info("New endpoint has same iface name as existing")
 					if wlIdsAscending(&existingId, &id) {
 						logCxt.Info("Existing endpoint takes preference")
+						if oldWorkload != nil {
+							// This endpoint is currently active under another interface
+							// name; it gives that name up.
+							removeActiveWorkload(logCxt, oldWorkload, id)
+							promoteShadowed(logCxt, oldWorkload.Name)
+							m.epIDsToUpdateStatus.Add(id)
+						}
 						m.shadowedWlEndpoints[id] = workload
 						delete(m.pendingWlEpUpdates, id)
 						continue
@@ -801,21 +835,27 @@ func (m *endpointManager) resolveWorkloadEndpoints() {
 					removeActiveWorkload(logCxt, m.activeWlEndpoints[existingId], existingId)
 				}
 				logCxt.Info("Updating per-endpoint chains.")
+				// The endpoint is (or becomes) the active one for its interface name, drop
+				// any older copy parked while it was shadowed.
+				delete(m.shadowedWlEndpoints, id)
 				if oldWorkload != nil && oldWorkload.Name != workload.Name {
 					logCxt.Debug("Interface name changed, cleaning up old state")
 					m.epMarkMapper.ReleaseEndpointMark(oldWorkload.Name)
+					m.removeWorkloadARPChains(id)
 					if !m.cfg.bpfEnabled {
 						m.filterTable.RemoveChains(m.activeWlIDToChains[id])
 						if m.hasSourceSpoofingConfiguration(oldWorkload.Name) {
-							logCxt.Debugf("Removing RPF configuration for workload %s", workload.Name)
-							delete(m.sourceSpoofingConfig, workload.Name)
+							logCxt.Debugf("Removing RPF configuration for workload %s", oldWorkload.Name)
+							delete(m.sourceSpoofingConfig, oldWorkload.Name)
 							m.rpfSkipChainDirty = true
 						}
+						m.updatePolicyGroups(oldWorkload.Name, nil)
 					}
 					m.routeTable.SetRoutes(oldWorkload.Name, nil)
 					m.wlIfaceNamesToReconfigure.Discard(oldWorkload.Name)
 					m.linkAddrsMgr.RemoveLinkLocalAddress(oldWorkload.Name)
 					delete(m.activeWlIfaceNameToID, oldWorkload.Name)
+					promoteShadowed(logCxt, oldWorkload.Name)
 				}
 				adminUp := workload.State == "active"
 				m.updateWorkloadARPChains(id, workload)
@@ -863,20 +903,7 @@ func (m *endpointManager) resolveWorkloadEndpoints() {
 				if oldWorkload != nil {
 					// Check for another endpoint with the same interface name,
 					// that should now become active.
-					bestShadowedId := types.WorkloadEndpointID{}
-					for sId, sWorkload := range m.shadowedWlEndpoints {
-						logCxt.Infof("Old workload %v", oldWorkload)
-						logCxt.Infof("Shadowed workload %v", sWorkload)
-						if sWorkload.Name == oldWorkload.Name {
-							if bestShadowedId.EndpointId == "" || wlIdsAscending(&sId, &bestShadowedId) {
-								bestShadowedId = sId
-							}
-						}
-					}
-					if bestShadowedId.EndpointId != "" {
-						m.pendingWlEpUpdates[bestShadowedId] = m.shadowedWlEndpoints[bestShadowedId]
-						delete(m.shadowedWlEndpoints, bestShadowedId)
-					}
+					promoteShadowed(logCxt, oldWorkload.Name)
 				}
 			}
 
